@@ -147,6 +147,35 @@ def run(project, chk):
     chk.check(handler_ok, "E3", parse.short, "except ...: self._error = str(e)", project.loc(m, parse.node), "the handler records the exception text in _error", how="store to self._error using the bound exception",
               message="the handler does not record the error message: .error stays empty for invalid colours")
 
+    # ---------------------------------------------------------------- V1: a *valid* colour is three ints in 0..255 (structural part)
+    chk.rule("V1", "what the parser can return as a valid colour is range-checked: hex digits are validated before int(.., 16); tuple/string RGB paths return under is_valid_rgb")
+    from sa.formula import extract_function, Unsupported
+    from checks.C07 import hex_digits_validated
+    hfi = project.func("cm_colors.core.conversions.hex_to_rgb")
+    try:
+        _ex, _env, hret = extract_function(project, hfi)
+    except Unsupported as e:
+        raise AnalysisError(f"ANALYSIS-INCONCLUSIVE {hfi.short}: {e}")
+    chk.check(hex_digits_validated(hret), "V1", hfi.short, "hex digit validation", project.loc(hfi.module, hfi.node), "hex_to_rgb rejects anything but hex digits before int(.., 16), so a valid hex colour has components in 0..255",
+              how="a failed all(c in <hex alphabet> ...) / regex full match raises before the conversion",
+              message="hex digits are not validated before int(pair, 16): Color('#-f0000') becomes a *valid* colour with a negative component, and make_readable then raises instead of returning (None, False)")
+    pfi = project.func("cm_colors.core.color_parser.parse_color_to_rgb")
+    pcfg = build_cfg(pfi.node)
+    pG = guard_states(pcfg)
+    from sa.wire import Origins
+    porg = Origins(project, pfi, pcfg)
+    n_direct = 0
+    for node in pcfg.nodes:
+        if node.kind == "return" and node.ast.value is not None:
+            o = porg.of(node.id, node.ast.value)
+            if o[0] == "tuple" or (o[0] == "call" and o[1] == "builtins.tuple"):
+                n_direct += 1
+                lits = common_literals(pG.get(node.id))
+                ok = any((not v) and t.startswith("not is_valid_rgb(") for (t, v) in lits) or any(v and t.startswith("is_valid_rgb(") for (t, v) in lits)
+                chk.check(ok, "V1", pfi.short, norm_text(node.ast), project.loc(pfi.module, node.ast), "a directly assembled RGB triple is returned only after is_valid_rgb accepted it", how=f"guards: {sorted(t for t, v in lits)[-2:]}",
+                          message="an RGB triple assembled by the parser is returned without the is_valid_rgb range check")
+    chk.floor("directly assembled triples returned by parse_color_to_rgb", n_direct, 2)
+
     # ---------------------------------------------------------------- N1
     n_deref = 0
     for mname in NG_MODULES:
